@@ -242,6 +242,9 @@ def ceiling_clamp(cx, iid):
                 ok = show(sn.operand_expr(rv["ops"][rv["fields"].index("max_send_rate")])) == "arg1"
         if not ok:
             inst.violation(sn.path, "max_send_rate", "SendRateComp::new does not store its argument as max_send_rate")
+    # the ceiling is computed from the endpoint's stored config: it must be the application's
+    from props.shared import config_verbatim
+    config_verbatim(cx, "C13.i")
 
 
 SELFTEST = [
